@@ -52,6 +52,7 @@ type Defects struct {
 	NamedFormat      bool // definition/root of a format string is a named struct type without methods
 	NamedArrayNoLim  bool // a definition/root of type array is a named slice type without any validator
 	EnumNullZero     bool // null for a defaulted enum-typed property runs the enum check on the zero value
+	NullItemsNoLim   bool // an array whose items are of type "null" gets the null check but no length validator
 	MapValueAnon     bool // inline object/array schemas used as additionalProperties of a property-less object are anonymous Go types
 }
 
@@ -546,6 +547,9 @@ func (c *evalCtx) evalArray(s *sg.Schema, a []any, path string, pos ctxPos) {
 		lim = pos.outerArr
 	}
 	noLim := pos.noArrLim || (c.d.NamedArrayNoLim && pos.viaRef)
+	if c.d.NullItemsNoLim && s.Items != nil && len(s.Items.Types) == 1 && s.Items.Types[0] == "null" && s.Items.Ref == "" {
+		noLim = true
+	}
 	if !noLim {
 		if lim.MinItems != 0 && len(a) < lim.MinItems {
 			c.fault("minItems", path)
